@@ -50,6 +50,7 @@ def run(ck):
     for depth in (100, 2000, 10000, 10001) + (() if quick else (100000, 3000000)):
         batches.append({"id": len(batches), "kind": "deep", "n": depth, "seed": 1})
     res = vlib.run_cases(ck, "json", batches, nproc=14, timeout=3000)
+    res = vlib.retry_hangs(ck, "json", batches, res, timeout=3000)
     stats, keycount, seen = {}, {}, set()
     for b in batches:
         o = res[b["id"]]
